@@ -318,7 +318,7 @@ var failClasses = []failClass{
 		edKey := func() map[string]interface{} {
 			return gen.DocKey(h.r, "key1", gen.TEd2018, []string{"authentication"}, "jwk")
 		}
-		switch h.r.Intn(14) {
+		switch h.r.Intn(20) {
 		case 0:
 			bad = gen.RandDocKey(h.r, "key1")
 			bad["extra"] = true
@@ -360,6 +360,22 @@ var failClasses = []failClass{
 			badPatch = gen.PReplace([]interface{}{edKey(), edKey()}, nil) // duplicate ids
 		case 13:
 			badPatch = gen.PRemoveServices()
+		case 14:
+			bad = edKey()
+			bad["id"] = ""
+		case 15:
+			bad = edKey()
+			bad["id"] = nil
+		case 16:
+			badPatch = gen.PRemoveKeys("")
+		case 17:
+			badPatch = gen.PRemoveServices("ok", "")
+		case 18:
+			bad = edKey()
+			bad["purposes"] = nil
+		case 19:
+			bad = edKey()
+			bad[""] = 1
 		}
 		if badPatch == nil {
 			badPatch = gen.PAddKeys(bad)
@@ -513,6 +529,38 @@ var failClasses = []failClass{
 		s.Facts.ParseOK = false
 		s.Facts.SuffixMatch = false
 	}},
+	{"key-coordinate-leading-zero-stripped", "urd", func(h *histCtx, s *opStep) {
+		// the signing key's JWK carries a coordinate one byte short (its leading zero byte removed): same integer, malformed key
+		if h.keyType == gen.Ed25519 {
+			s.Spec.Reveal = gen.S(gen.NewKey(h.r, h.keyType).Reveal(h.code)) // no coordinates to shorten: a plain reveal mismatch instead
+			s.Facts.ParseOK = false
+			return
+		}
+		k, ok := gen.NewKeyLeadingZero(h.r, h.keyType, 600)
+		if !ok {
+			s.Spec.Reveal = gen.S(gen.NewKey(h.r, h.keyType).Reveal(h.code))
+			s.Facts.ParseOK = false
+			return
+		}
+		j := k.JWK()
+		x, y := k.XY()
+		if x[0] == 0 {
+			j["x"] = oracle.B64(x[1:])
+		} else {
+			j["y"] = oracle.B64(y[1:])
+		}
+		// a self-consistent operation by that key (the applier does not know the previous commitment): only the key encoding is wrong
+		s.Spec.Signer = k
+		s.Spec.PayloadKey = j
+		s.Facts.SigOK = false
+	}},
+	{"reveal-mismatch-with-matching-signed-reveal-value", "urd", func(h *histCtx, s *opStep) {
+		// the request names another key's reveal value; the signed data additionally carries the right one as an unused member
+		honest := s.Spec.Signer.Reveal(h.code)
+		s.Spec.Reveal = gen.S(gen.NewKey(h.r, h.keyType).Reveal(h.code))
+		s.Spec.PayloadEdit = func(p map[string]interface{}) { p["revealValue"] = honest }
+		s.Facts.ParseOK = false
+	}},
 	{"signed-suffix-missing", "d", func(h *histCtx, s *opStep) {
 		s.Spec.PayloadEdit = func(p map[string]interface{}) { delete(p, "didSuffix") }
 		s.Facts.ParseOK = false
@@ -579,6 +627,9 @@ func randAnchorOrigin(r *fw.Rand) interface{} {
 	case 0:
 		return nil
 	case 1:
+		if r.Chance(1, 4) {
+			return fw.Pick(r, []interface{}{[]interface{}{"a", map[string]interface{}{"b": 1}}, float64(r.Intn(100)), true, ""})
+		}
 		return map[string]interface{}{"domain": fmt.Sprintf("origin%d.example", r.Intn(100)), "n": r.Intn(10)}
 	}
 	return fmt.Sprintf("https://origin%d.example.com/services/orb", r.Intn(1000))
@@ -858,7 +909,8 @@ func runHistoryProto(c *fw.Case, plan []planEntry, keyType string, code uint64, 
 		c.Count("steps", 1)
 		c.Count("outcome:"+outcome, 1)
 		w := map[string]interface{}{"history": trace, "key_type": keyType, "code": code, "step": i, "class": s.Class, "expected_outcome": outcome, "err": fmt.Sprint(err)}
-		if mode == "C12" {
+		c12 := mode == "C12"
+		if c12 {
 			if !reflect.DeepEqual(snapRM, deepCopy(actual)) {
 				w["diff"] = describeDiff(snapRM, actual)
 				c.Failf("previous-state-mutated", w, "Apply modified the previous resolution model (%s, %s)", s.Class, w["diff"])
@@ -876,7 +928,8 @@ func runHistoryProto(c *fw.Case, plan []planEntry, keyType string, code uint64, 
 				c.Failf("no-state-no-error", w, "Apply returned neither state nor error (%s)", s.Class)
 				return
 			}
-		} else {
+		}
+		{
 			if accepted != (err == nil) {
 				if accepted {
 					c.Failf("refused-but-expected-"+strings.SplitN(outcome, ":", 2)[0], w, "step %d (%s %s): expected %s, applier refused: %v", i, s.AnchoredType, s.Class, outcome, err)
